@@ -48,10 +48,11 @@ var pool = []text{
 	{"y.yang", `module y { ` + H("y") + ` import v { prefix v; revision-date 2019-06-01; } identity yi { base v:vi; } container yu { uses v:vg; } augment /v:vc { leaf ya { type string; } } }`, "y", true},
 	{"x.yang", `module x { ` + H("x") + ` import v { prefix v; } identity xi { base v:vi; } typedef xt { type v:vt; } leaf xl { type xt; } leaf xl2 { type v:vt; } container xu { uses v:vg; } grouping xg { uses v:vg; } container xu2 { uses xg; } leaf xr { type identityref { base v:vi; } } }`, "x", true},
 	// two revisions of a submodule, the module that includes it (date-less) and an importer of that module
-	{"sm.yang", `module sm { ` + H("sm") + ` include ss; leaf q { type st; } container smc { uses sg; } }`, "sm", true},
+	{"sm2.yang", `module sm { ` + H("sm") + ` revision 2022-02-02; revision 2020-01-01; typedef st { type boolean; } grouping sg { leaf own { type st; } } identity si; identity sk { base si; } leaf q { type st; } }`, "sm@2022-02-02", true},
+	{"sm.yang", `module sm { ` + H("sm") + ` revision 2020-01-01; include ss; leaf q { type st; } container smc { uses sg; } }`, "sm@2020-01-01", true},
 	{"ss1.yang", `submodule ss { belongs-to sm { prefix sm; } revision 2020-01-01; typedef st { type int8; } grouping sg { leaf old { type st; } } container sc { leaf a { type st; } } identity si; }`, "ss@2020-01-01", true},
 	{"ss2.yang", `submodule ss { belongs-to sm { prefix sm; } revision 2021-06-01; typedef st { type string; } grouping sg { leaf new { type st; } leaf-list nl { type st; } } container sc { leaf b { type st; } } identity si; identity sj { base si; } }`, "ss@2021-06-01", true},
-	{"su.yang", `module su { ` + H("su") + ` import sm { prefix sm; } leaf r { type identityref { base sm:si; } } leaf t { type sm:st; } container suc { uses sm:sg; } }`, "su", true},
+	{"su.yang", `module su { ` + H("su") + ` import sm { prefix sm; } identity sud { base sm:si; } leaf r { type identityref { base sm:si; } } leaf t { type sm:st; } container suc { uses sm:sg; } }`, "su", true},
 	{"nomand.yang", `module nm { prefix nm; typedef z { type int8; } container nc { typedef nz { type int8 { range "5..1"; } } list nl { typedef nz2 { type nosuch2; } key k; leaf k { type nz2; } } } }`, "", false},
 }
 
@@ -68,7 +69,7 @@ var groups = [][]string{
 	{"g.yang", "h.yang", "k.yang", "r.yang", "syntax.yang", "b1.yang", "b2.yang", "gdup.yang", "nomand.yang"},
 	{"g.yang", "gm.yang", "gsub.yang", "h.yang", "b2.yang", "syntax.yang"},
 	{"g.yang", "v1.yang", "v2.yang", "w.yang", "x.yang", "y.yang", "b1.yang"},
-	{"sm.yang", "ss1.yang", "ss2.yang", "su.yang", "b1.yang"},
+	{"sm.yang", "sm2.yang", "ss1.yang", "ss2.yang", "su.yang", "b1.yang"},
 }
 
 func groupOps(gi int) []int {
@@ -482,7 +483,7 @@ func poolIndex(name string) int {
 // loaded, a processing run - or, once a run has taken place, a read, which builds the trees -
 // follows, and the other revision is loaded after it.
 func lateRevision(h []int) bool {
-	for _, fam := range [][]string{{"v1.yang", "v2.yang", "w.yang", "x.yang", "y.yang"}, {"ss1.yang", "ss2.yang", "sm.yang"}} {
+	for _, fam := range [][]string{{"v1.yang", "v2.yang", "w.yang", "x.yang", "y.yang"}, {"ss1.yang", "ss2.yang", "sm.yang"}, {"sm.yang", "sm2.yang", "su.yang"}} {
 		r1, r2 := poolIndex(fam[0]), poolIndex(fam[1])
 		var users []int
 		for _, n := range fam[2:] {
